@@ -452,4 +452,42 @@ def c11_scan(tier, seed):
 
 E('C11', c11_scan)
 
+# ----------------------------------------------------------------------------- C12
+prop('C12', 'other',
+     'Proved for all inputs: the series kernel asin<20> stays within [x, 1.125x] on its call domain (CBMC/kissat); asin '
+     'is NaN exactly for |x| > 1, bounded by the library pi/2, zero at zero, of the sign of its argument, and free of '
+     'UB under BOTH sqrt algorithms (INT over the kernel and sqrt contracts; abacus: the proved floor-root contract, '
+     'std::sqrt: the assumed one-ulp contract); asin(-x) == -asin(x) and acos(x).v == 102943 - asin(x).v with NaN '
+     'exactly for |x| > 1 (CBMC lemmas, asin/kernels under the determinism abstraction). The backward-error and '
+     'monotonicity clauses need the real arcsine / a forall-forall relation: exhaustive native enumeration of all '
+     '131,073 raw x in [-1,1] under both algorithms -- stand-in, not proved.',
+     technique='CBMC contracts + kissat (kernel), INT back end (NaN domain, range, UB under both sqrt contracts), UF lemmas (odd, acos identity); exhaustive native stand-in',
+     assumptions=['sqrt_std_math is within one ulp of the real root on [0, 0.2] (assumed contract, std::sqrt correctly rounded; cross-checked by the C13 scan)',
+                  'glibc asinl as the oracle of the stand-in'])
+ASIN_K = '_ZN9fixedmath6detail4asinILi20EEEll'
+ASIN = '_ZN9fixedmath4asinENS_7fixed_tE'
+ACOS = '_ZN9fixedmath4acosENS_7fixed_tE'
+K_ASIN_K = (ASIN_K, 'pre_asin_k', 'post_asin_k')
+K_SQRT_ASIN = (SQRT, 'pre_sqrt_asin', 'post_sqrt_asin')
+K_ASIN = (ASIN, 'pre_valid1', 'post_asin')
+U('C12', 'c12.asin_k', ASIN_K, 'pre_asin_k', 'post_asin_k', cxx='fixedmath::detail::asin<20>($1)', backends=MULBE, timeout=1800, split=True)
+for cfg in ('abacus', 'stdsqrt'):
+    U('C12', 'c12.asin.' + cfg, ASIN, 'pre_valid1', 'post_asin', replace=[K_ASIN_K, K_SQRT_ASIN], cfg=cfg, cxx='fixedmath::asin($1)', backends=('sat', 'kissat'), timeout=300)
+U('C12', 'c12.sqrt_1ulp.abacus', 'lem_c12_sqrt_contract', 'pre_c12_sqrtc', None, lemma=True, cxx='lem_c12_sqrt_contract($1,$2)', **INTQ)
+U('C12', 'c12.sqrt_bound', 'lem_c12_sqrt_bound', 'pre_c12_sqrtb', None, lemma=True, cxx='lem_c12_sqrt_bound($1,$2)', **INTQ)
+U('C12', 'c12.odd', 'lem_c12_odd', 'pre_c12_in', None, lemma=True, cxx='lem_c12_odd($1)', replace=[(ASIN_K, 'UF', 'post_asin_k'), (SQRT, 'UF', 'post_sqrt_asin')], backends=('sat', 'kissat'), timeout=300)
+U('C12', 'c12.acos', 'lem_c12_acos', 'pre_valid1', None, lemma=True, cxx='lem_c12_acos($1)', replace=[(ASIN, 'UF', 'post_asin')], backends=('sat', 'kissat'), timeout=300)
+
+
+def c12_scan_abacus(tier, seed):
+    return _native.run_native('c12_asin_scan_abacus', 'c12_asin_scan.cc', 'abacus', [], label='exhaustive stand-in (not proved): backward error / monotone, abacus sqrt')
+
+
+def c12_scan_std(tier, seed):
+    return _native.run_native('c12_asin_scan_std', 'c12_asin_scan.cc', 'stdsqrt', [], label='exhaustive stand-in (not proved): backward error / monotone, std::sqrt')
+
+
+E('C12', c12_scan_abacus)
+E('C12', c12_scan_std)
+
 NOT_APPLICABLE = {}
